@@ -113,7 +113,7 @@ EXTRA3 = {
  "C06": ("; import loop shape; delimiter exclusion of identifiers", " The import stores every listed denom and token; identifiers exclude x/nft's key delimiter."),
  "C07": ("; path conditions of panics in the burn genesis import; account constructors at module addresses", " No panic of the burn genesis import depends on a balance or account read; no plain account is stored at a module address."),
  "C08": ("; stored-type validation vs. message validation (interval and language inclusion)", " Genesis validation of a stored type accepts everything the messages can store."),
- "C09": ("; mutation of ranged maps", " No map is inserted into or deleted from while it is ranged over."),
+ "C09": ("; mutation of ranged maps", " No map is inserted into (under a key other than the current one) while it is ranged over."),
  "C10": ("; SDK-facing decorator and hook types in the block-processing scope", " Ante decorators and hooks handed to the SDK keep no state in process memory."),
  "C15": ("; lost writes through value receivers", " No setter on a value receiver is called for its effect."),
  "C17": ("; store keys that can shrink to nothing", " A store key that went through a trimming function has a non-emptiness guarantee."),
